@@ -94,7 +94,8 @@ theorem applyPadding_periodic_fwd (lhs : Nat → K) (nL nR off : Nat) (h : nR < 
                else if off + nR ≤ i ∧ i < nL then lhs (i - nR) else lhs i := by
   funext i
   have hmin : min nL nR = nR := by omega
-  simp only [applyPadding, if_neg (Nat.not_le.2 h), hmin, PadSlices.outer, PadSlices.inner]
+  have hmax : max nL nR = nL := by omega
+  simp only [applyPadding, if_neg (Nat.not_le.2 h), hmin, hmax, PadSlices.outer, PadSlices.inner]
   rw [pySlice_upto _ _ (by omega) (by omega), pySlice_from _ _ (by omega) (by omega),
     pySlice_fwd _ _ _ (by omega) (by omega) (by omega),
     pySlice_fwd _ _ _ (by omega) (by omega) (by omega)]
@@ -108,7 +109,8 @@ theorem applyPadding_symmetric_fwd (lhs : Nat → K) (nL nR off : Nat) (h : nR <
                else if off + nR ≤ i ∧ i < nL then lhs (2 * (off + nR - 1) - i) else lhs i := by
   funext i
   have hmin : min nL nR = nR := by omega
-  simp only [applyPadding, if_neg (Nat.not_le.2 h), hmin, PadSlices.outer, PadSlices.inner]
+  have hmax : max nL nR = nL := by omega
+  simp only [applyPadding, if_neg (Nat.not_le.2 h), hmin, hmax, PadSlices.outer, PadSlices.inner]
   rw [pySlice_upto _ _ (by omega) (by omega), pySlice_from _ _ (by omega) (by omega),
     pySlice_rev _ _ _ (by omega) (by omega) (by omega),
     pySlice_rev_fix _ _ _ (by omega) (by omega) (by omega) (by omega)]
@@ -122,7 +124,8 @@ theorem applyPadding_order0_fwd (lhs : Nat → K) (nL nR off : Nat) (h : nR < nL
                else if off + nR ≤ i ∧ i < nL then lhs (off + nR - 1) else lhs i := by
   funext i
   have hmin : min nL nR = nR := by omega
-  simp only [applyPadding, if_neg (Nat.not_le.2 h), hmin, PadSlices.outer, PadSlices.inner]
+  have hmax : max nL nR = nL := by omega
+  simp only [applyPadding, if_neg (Nat.not_le.2 h), hmin, hmax, PadSlices.outer, PadSlices.inner]
   rw [pySlice_upto _ _ (by omega) (by omega), pySlice_from _ _ (by omega) (by omega),
     pySlice_fwd _ _ _ (by omega) (by omega) (by omega),
     pySlice_fwd _ _ _ (by omega) (by omega) (by omega)]
@@ -141,7 +144,8 @@ theorem applyPadding_periodic_adj (lhs : Nat → K) (nL nR off : Nat) (h : nR < 
                      + (if off ≤ i ∧ i + nR < nL then lhs (i + nR) else 0) := by
   funext i
   have hmin : min nL nR = nR := by omega
-  simp only [applyPadding, if_neg (Nat.not_le.2 h), hmin, PadSlices.outer, PadSlices.inner]
+  have hmax : max nL nR = nL := by omega
+  simp only [applyPadding, if_neg (Nat.not_le.2 h), hmin, hmax, PadSlices.outer, PadSlices.inner]
   rw [pySlice_upto _ _ (by omega) (by omega), pySlice_from _ _ (by omega) (by omega),
     pySlice_fwd _ _ _ (by omega) (by omega) (by omega),
     pySlice_fwd _ _ _ (by omega) (by omega) (by omega)]
@@ -163,7 +167,8 @@ theorem applyPadding_order0_adj (lhs : Nat → K) (nL nR off : Nat) (h : nR < nL
                           sumN (nL - nR - off) (fun k => lhs (off + nR + k)) else 0) := by
   funext i
   have hmin : min nL nR = nR := by omega
-  simp only [applyPadding, if_neg (Nat.not_le.2 h), hmin, PadSlices.outer, PadSlices.inner]
+  have hmax : max nL nR = nL := by omega
+  simp only [applyPadding, if_neg (Nat.not_le.2 h), hmin, hmax, PadSlices.outer, PadSlices.inner]
   rw [pySlice_upto _ _ (by omega) (by omega), pySlice_from _ _ (by omega) (by omega),
     pySlice_fwd _ _ _ (by omega) (by omega) (by omega),
     pySlice_fwd _ _ _ (by omega) (by omega) (by omega)]
@@ -193,7 +198,8 @@ theorem applyPadding_symmetric_adj (lhs : Nat → K) (nL nR off : Nat) (h : nR <
                           then lhs (2 * (off + nR) - 2 - i) else 0) := by
   funext i
   have hmin : min nL nR = nR := by omega
-  simp only [applyPadding, if_neg (Nat.not_le.2 h), hmin, PadSlices.outer, PadSlices.inner]
+  have hmax : max nL nR = nL := by omega
+  simp only [applyPadding, if_neg (Nat.not_le.2 h), hmin, hmax, PadSlices.outer, PadSlices.inner]
   rw [pySlice_upto _ _ (by omega) (by omega), pySlice_from _ _ (by omega) (by omega),
     pySlice_rev _ _ _ (by omega) (by omega) (by omega),
     pySlice_rev_fix _ _ _ (by omega) (by omega) (by omega) (by omega)]
@@ -211,7 +217,8 @@ theorem applyPadding_order1_fwd (lhs : Nat → K) (nL nR off : Nat) (h : nR < nL
                else lhs i := by
   funext i
   have hmin : min nL nR = nR := by omega
-  simp only [applyPadding, if_neg (Nat.not_le.2 h), hmin, PadSlices.outer, PadSlices.inner,
+  have hmax : max nL nR = nL := by omega
+  simp only [applyPadding, if_neg (Nat.not_le.2 h), hmin, hmax, PadSlices.outer, PadSlices.inner,
     SliceSpec.widenStop, SliceSpec.widenStart, Option.map]
   rw [pySlice_upto _ _ (by omega) (by omega), pySlice_from _ _ (by omega) (by omega),
     pySlice_fwd _ _ _ (by omega) (by omega) (by omega),
@@ -235,7 +242,8 @@ theorem applyPadding_order1_adj (lhs : Nat → K) (nL nR off : Nat) (h : nR < nL
           + (if i = off + nR - 2 then -MR else if i = off + nR - 1 then MR else 0) := by
   funext i
   have hmin : min nL nR = nR := by omega
-  simp only [applyPadding, if_neg (Nat.not_le.2 h), hmin, PadSlices.outer, PadSlices.inner,
+  have hmax : max nL nR = nL := by omega
+  simp only [applyPadding, if_neg (Nat.not_le.2 h), hmin, hmax, PadSlices.outer, PadSlices.inner,
     SliceSpec.widenStop, SliceSpec.widenStart, Option.map]
   rw [pySlice_upto _ _ (by omega) (by omega), pySlice_from _ _ (by omega) (by omega),
     pySlice_fwd _ _ _ (by omega) (by omega) (by omega),
